@@ -278,6 +278,15 @@ def main():
             if funcs:
                 ss = [s for s in ss if any(f in s['func'] for f in funcs)]
             all_sites += ss
+    only_from = opt('--survivors-of')
+    if only_from:
+        # re-run only the mutants that an earlier sweep found silent and surviving (same /repo HEAD: same offsets)
+        keep = set()
+        for l in open(only_from):
+            r = json.loads(l)
+            if r.get('status') in ('silent', 'exit2') and r.get('tests') == 'survived':
+                keep.add((r['file'], r['a'], r['b'], r['new']))
+        all_sites = [s_ for s_ in all_sites if (s_['file'], s_['a'], s_['b'], s_['new']) in keep]
     if limit:
         all_sites = all_sites[:limit]
     print(f'{len(all_sites)} mutation sites', flush=True)
